@@ -830,17 +830,6 @@ fn one_case_glue(rep: &mut Report, drv: &mut Driver, src: &str, ret: Ret, origin
                 &r.class(src), input(i, b));
             rep.class(format!("defect:{}", r.class(src)));
         }
-        (Some((i, b)), None) if !checked.lir_diffs.is_empty() => {
-            // The MIR is justified by both verified checkers, and the LIR does not perform the
-            // clone / drop calls that the MIR's ownership events name (`block_lowering_keeps_events`
-            // over the lowering as extracted from src/lir/lower.rs): the MIR → LIR lowering took an
-            // ownership decision of its own.
-            rep.violation(
-                &format!("MIR → LIR lowering: {} on the path n={} m={} c={} of a program whose MIR the verified checkers accept; the clone / drop calls in the LIR are not the ownership events of the MIR: {}",
-                    describe(b), i.n, i.m, i.c, checked.lir_diffs.iter().take(3).cloned().collect::<Vec<_>>().join(" || ")),
-                "lir-lowering-ownership", input(i, b));
-            rep.class("defect:lir-lowering-ownership".to_string());
-        }
         (Some((i, b)), None) if glue => {
             // the MIR is justified by the verified checker: what is wrong is below it, in the
             // generated drop / clone functions of the declared types
@@ -865,6 +854,17 @@ fn one_case_glue(rep: &mut Report, drv: &mut Driver, src: &str, ret: Ret, origin
                     describe(b), b.created, b.cloned, b.dropped, i.n, i.m, i.c),
                 "zero-sized-token-glue", input(i, b));
             rep.class("defect:zero-sized-token-glue".to_string());
+        }
+        (Some((i, b)), None) if !checked.lir_diffs.is_empty() => {
+            // The MIR is justified by both verified checkers, and the LIR does not perform the
+            // clone / drop calls that the MIR's ownership events name (`block_lowering_keeps_events`
+            // over the lowering as extracted from src/lir/lower.rs): the MIR → LIR lowering took an
+            // ownership decision of its own.
+            rep.violation(
+                &format!("MIR → LIR lowering: {} on the path n={} m={} c={} of a program whose MIR the verified checkers accept; the clone / drop calls in the LIR are not the ownership events of the MIR: {}",
+                    describe(b), i.n, i.m, i.c, checked.lir_diffs.iter().take(3).cloned().collect::<Vec<_>>().join(" || ")),
+                "lir-lowering-ownership", input(i, b));
+            rep.class("defect:lir-lowering-ownership".to_string());
         }
         (Some((i, b)), None) if !runtime_element_calls(src).is_empty() => {
             // The MIR is justified by both verified checkers and hands a value to the list
